@@ -284,6 +284,18 @@ Section C01.
     ja_family r = "EC"%string -> averify r k msg sig = Ok true -> k_crv k = ja_curve r.
   Proof. intros F H. exact (proj1 (ec_accept_inv r k msg sig F H)). Qed.
 
+  (* RSASSA-PSS / PKCS1-v1_5 / EdDSA: the verdict is the primitive's, asked with the ROW of the
+     algorithm table (hash, MGF hash and salt length are those of the row, see pss_rows_fixed) *)
+  Theorem pk_accept_inv r k msg sig :
+    (fam_of r = FPss \/ fam_of r = FRsa \/ fam_of r = FEd) ->
+    averify r k msg sig = Ok true -> pk_verify r (k_id k) msg sig = Ok true.
+  Proof.
+    unfold alg_verify. intros [F|[F|F]]; rewrite F; intro H; bstep H as u CK.
+    - destruct (mistyped FRsa k); [discriminate|exact H].
+    - destruct (mistyped FRsa k); [discriminate|exact H].
+    - destruct (mistyped FEd k); [discriminate|]. destruct (ed_curve_ok k); [exact H|discriminate].
+  Qed.
+
   Theorem hmac_accept_inv r k msg sig :
     ja_family r = "HMAC"%string -> averify r k msg sig = Ok true ->
     mac (ja_hash r) (k_id k) msg = Ok sig.
@@ -445,6 +457,17 @@ Section C01.
       exists pseg, sseg, m', headers', (reg15 algs). auto 10.
   Qed.
 End C01.
+
+(* every PSS row of the table of /repo: MGF1 with the hash of the row and salt = its digest size *)
+Definition digest_size (h : string) : string :=
+  if String.eqb h "sha256" then "32" else if String.eqb h "sha384" then "48" else if String.eqb h "sha512" then "64" else "?".
+Definition pss_row_fixed (r : jws_alg_row) : bool :=
+  if String.eqb (ja_family r) "PSS"
+  then String.eqb (ja_pad r) ("PSS:mgf=" ++ ja_hash r ++ ":salt=" ++ digest_size (ja_hash r))
+       && (String.eqb (ja_hash r) "sha256" || String.eqb (ja_hash r) "sha384" || String.eqb (ja_hash r) "sha512")
+  else true.
+Lemma pss_rows_fixed : forallb pss_row_fixed jws_alg_table = true.
+Proof. vm_compute. reflexivity. Qed.
 
 (* ---------------- oct keys: the material is exactly the octets given ---------------- *)
 Theorem oct_import_exact :
